@@ -1,10 +1,46 @@
 import TwigModel.Proto
+import TwigModel.Escape
 open Lean
 namespace Twig.Ops
+open Twig.Escape
 
-/-- driver ops of the Escape area (see the module TwigModel.Escape); `none` = not one of ours -/
+def mapStrs (j : Json) (f : Bytes → Json) : Except String (Array Json) := do
+  let strs ← Proto.getArr j "strs"
+  strs.mapM fun x => do let bs ← Proto.asBytes x; pure (f bs)
+
+/-- driver ops of the Escape area; every op takes a batch {strs: [hex]} and answers {outs: [...]}:
+    escape_reg        html.EscapeString model (`escReg`)                         → outs: [hex]
+    escape_fallback   ApplyFilter's built-in fallback (`escFallback`)            → outs: [hex], valid: [bool] (validUtf8)
+    escape_unescape5  independent decoder of the five references of escReg       → outs: [hex]
+    escape_unescape_fb  … of the fallback's references                           → outs: [hex]
+    escape_apply {env: bool, name: string, strs}  `applyFilter`                   → outs: [hex | null]
+    escape_names {}   the FACT name tables                                        → {registered: [..], fallback: [..]} -/
 def escapeOps (op : String) (j : Json) : Option (Except String Json) :=
   match op with
+  | "escape_reg" => some do
+      let outs ← mapStrs j fun bs => Proto.hex (escReg bs)
+      pure (Proto.ok [("outs", Json.arr outs)])
+  | "escape_fallback" => some do
+      let outs ← mapStrs j fun bs => Proto.hex (escFallback bs)
+      let valid ← mapStrs j fun bs => Json.bool (validUtf8 bs)
+      pure (Proto.ok [("outs", Json.arr outs), ("valid", Json.arr valid)])
+  | "escape_unescape5" => some do
+      let outs ← mapStrs j fun bs => Proto.hex (unescape5 bs)
+      pure (Proto.ok [("outs", Json.arr outs)])
+  | "escape_unescape_fb" => some do
+      let outs ← mapStrs j fun bs => Proto.hex (unescapeFb bs)
+      pure (Proto.ok [("outs", Json.arr outs)])
+  | "escape_apply" => some do
+      let env ← Proto.getBool j "env"
+      let name ← Proto.getStr j "name"
+      let outs ← mapStrs j fun bs =>
+        match applyFilter env name bs with
+        | some o => Proto.hex o
+        | none => Json.null
+      pure (Proto.ok [("outs", Json.arr outs)])
+  | "escape_names" => some (pure (Proto.ok [
+      ("registered", Json.arr (escapeNames.map Json.str).toArray),
+      ("fallback", Json.arr (fallbackNames.map Json.str).toArray)]))
   | _ => none
 
 end Twig.Ops
